@@ -328,6 +328,7 @@ pub fn gen_world(rng: &mut Rng, k: &WorldKnobs) -> World {
         code_size_limit: if rng.chance(1, 10) { Some(rng.range(1, 64) as usize) } else { None },
         chain_id: 1,
         reward: true,
+        fault_precompile: false,
     };
     let mut universe = pool;
     universe.extend(derived);
